@@ -150,6 +150,20 @@ impl Slot {
         // NOTE: We increment the version on release, not assignment.
     }
 
+    /// Verification hook: raw (index bits, version) of this slot.
+    #[cfg(gecs_verif)]
+    #[inline(always)]
+    pub(crate) fn verif_raw(&self) -> (u32, u32) {
+        (self.index.0, self.version.get().get())
+    }
+
+    /// Verification hook: overwrite this slot's version.
+    #[cfg(gecs_verif)]
+    #[inline(always)]
+    pub(crate) fn verif_set_version(&mut self, version: SlotVersion) {
+        self.version = version;
+    }
+
     /// Releases a slot and increments its version, invalidating all handles.
     /// Returns an `EcsError::VersionOverflow` if the version increment overflows.
     #[inline(always)]
